@@ -391,13 +391,17 @@ def _hand_classes() -> dict:
             if inspect.isclass(c) and issubclass(c, H.Hand) and hasattr(c, 'low') and hasattr(c, 'lookup')}
 
 
-def h_keys(ctx: Any, lookup: str, k: int) -> None:
+def h_keys(ctx: Any, lookup: str, k: int, ranks: str = '', suits: str = '') -> None:
     """L3: real Card predicates, Lookup._get_key / has_entry / get_entry and Hand.__init__
     on k cards with symbolic (pinned) rank and suit, unknowns included."""
     from engine import smt_tables as T
     from pokerkit.lookups import Lookup
     from pokerkit.utilities import Card, Rank, Suit
     RANKS, SUITS = list(Rank), list(Suit)
+    if ranks:
+        RANKS = [Rank(ch) for ch in ranks]
+    if suits:
+        SUITS = [Suit(ch) for ch in suits]
     mult = dict(getattr(Lookup, '_Lookup__multipliers'))
     lk = _lk(lookup)
     rules = T.RULES[lookup]
@@ -495,5 +499,10 @@ def jobs(tier: str, seed: int) -> list[dict]:
         for k in ((1, 2) if tier == 'quick' else (1, 2)):
             out.append(dict(name=f'L3/{lk}/k{k}', fn='h_keys', params=dict(lookup=lk, k=k),
                             budget_s=280, must_cover=['key']))
+    for lk in ('BadugiLookup', 'StandardBadugiLookup'):
+        out.append(dict(name=f'L3/{lk}/k3/ranks-A23K', fn='h_keys', params=dict(lookup=lk, k=3, ranks='A23K', suits='cdhs'),
+                        budget_s=280, must_cover=['key', 'nonrainbow']))
+        out.append(dict(name=f'L3/{lk}/k4/ranks-A2/suits-cdh', fn='h_keys', params=dict(lookup=lk, k=4, ranks='A234', suits='cd'),
+                        budget_s=280, must_cover=['nonrainbow']))
     out.append(dict(name='L2/low-flags', kind='native', fn='low_flags', params={}, budget_s=30))
     return out
